@@ -7,5 +7,7 @@ mkdir -p work replays evidence
 cp /repo/Cargo.lock harness/Cargo.lock
 exes=$(grep '^name = "gm' lean/lakefile.toml | sed 's/name = "\(.*\)"/\1/')
 (cd lean && lake build GrcovModel $exes)
-(cd harness && cargo build --offline)
+# (a build directory copied while another build was writing it can hold inconsistent incremental
+# objects: on a link failure drop the incremental cache and the harness's own objects and build again)
+(cd harness && (cargo build --offline || (rm -rf target/debug/incremental target/debug/deps/c[0-2][0-9]-* target/debug/deps/corrlib-* target/debug/deps/libcorrlib-* && cargo build --offline)))
 echo setup-ok
